@@ -257,6 +257,65 @@ def h3_normal(ctx, kind):
         ctx.oblige('sag_is_sheet', ctx.eq(zs, z))
 
 
+@harness('C02', 'H3b_polynomial_normal', funcs=FUNCS, cases=lambda tier: [dict(shape=(1, 3)), dict(shape=(2, 3)), dict(shape=(3, 2)), dict(shape='asphere')],
+         bounds='xy-polynomial surface on a spherical base (symbolic R) with a coefficient array of 1 x 3, 2 x 3 or 3 x 2 symbolic coefficients '
+                '(non-square on purpose), even asphere with 2 symbolic coefficients; arbitrary point (x, y) inside the base sphere',
+         doc='the surface normal of polynomial / aspheric surfaces is the unit vector along (dz/dx, dz/dy, -1) of the documented sag '
+             'z = base sag + sum c_ij x^i y^j  (resp. + sum C_i r^(2i+2))')
+def h3b_polynomial_normal(ctx, shape):
+    from optiland.coordinate_system import CoordinateSystem
+    from optiland.geometries import PolynomialGeometry, EvenAsphere
+    R = ctx.real('R', ne=0)
+    x, y = ctx.real('x'), ctx.real('y')
+    ctx.assume(x * x + y * y < R * R)
+    if shape == 'asphere':
+        cs_ = [ctx.real('C0', lo=-1.0, hi=1.0), ctx.real('C1', lo=-1.0, hi=1.0)]
+        g = EvenAsphere(CoordinateSystem(), R, 0.0, coefficients=cs_)
+    else:
+        c = [[ctx.real(f'c{i}{j}', lo=-1.0, hi=1.0) for j in range(shape[1])] for i in range(shape[0])]
+        if ctx.sym:
+            from symopt.facade import oarr
+            arr = np.empty(shape, dtype=object)
+            for i in range(shape[0]):
+                for j in range(shape[1]):
+                    arr[i, j] = c[i][j]
+            carr = oarr(arr)
+        else:
+            carr = np.array(c, dtype=float)
+        g = PolynomialGeometry(CoordinateSystem(), R, 0.0, coefficients=carr)
+    n = [ctx.val(v) for v in g._surface_normal(ctx.arr(x), ctx.arr(y))]
+    if not all(ctx.finite(v) for v in n):
+        ctx.oblige('normal_defined', False)
+        return
+    r2 = x * x + y * y
+    den = R * ctx.sqrt(1 - r2 / (R * R))
+    gx, gy = x / den, y / den
+
+    def pw(b, e):
+        r = 1.0
+        for _ in range(e):
+            r = r * b
+        return r
+    if shape == 'asphere':
+        for i, Ci in enumerate(cs_):
+            gx = gx + 2 * (i + 1) * x * Ci * pw(r2, i)
+            gy = gy + 2 * (i + 1) * y * Ci * pw(r2, i)
+    else:
+        for i in range(shape[0]):
+            for j in range(shape[1]):
+                if i >= 1:
+                    gx = gx + i * c[i][j] * pw(x, i - 1) * pw(y, j)
+                if j >= 1:
+                    gy = gy + j * c[i][j] * pw(x, i) * pw(y, j - 1)
+    grad = (gx, gy, -1.0)
+    ctx.oblige('unit', ctx.eq(dot(n, n), 1.0))
+    cr = cross(n, grad)
+    for i, ax in enumerate('xyz'):
+        ctx.oblige(f'parallel_to_gradient_{ax}', ctx.eq(cr[i], 0.0))
+    ctx.oblige('points_against_the_axis', n[2] < 0)
+    ctx.observe('nz', n[2])
+
+
 # ------------------------------------------------------------------------------------ H5 orchestration
 class FakeGeometry:
     """geometry whose distance and normal are arbitrary symbolic values (uninterpreted geometry)"""
@@ -403,9 +462,9 @@ def h6_wiring(ctx, seq):
 
 
 # ------------------------------------------------------------------------------------ H7 Newton-Raphson surfaces
-@harness('C02', 'H7_newton_raphson', funcs=FUNCS, cases=lambda tier: [dict(bundle='single'), dict(bundle='with_lost_ray')], max_paths=40,
+@harness('C02', 'H7_newton_raphson', funcs=FUNCS, cases=lambda tier: [dict(bundle='single'), dict(bundle='with_lost_ray'), dict(bundle='with_axial_ray')], max_paths=40,
          bounds='even asphere = sphere (R = -2; symbolic in the thorough tier) + one symbolic r^2 coefficient, symbolic tolerance, max_iter = 2; ray through the point of the '
-                'base sphere with chord slope -2 (a symbolic point in the thorough tier) with the rational unit direction (2,-3,6)/7; alone or in a bundle with a ray that is already lost (NaN)',
+                'base sphere with chord slope -2 (a symbolic point in the thorough tier) with the rational unit direction (2,-3,6)/7; alone, in a bundle with a ray that is already lost (NaN), or with an axial ray that has converged from the start',
          doc='the iterative intersection leaves every valid ray either on the surface to within the tolerance (the residual tested before the '
              'last step is below tol) or after max_iter steps - a lost ray in the same bundle does not cut the iteration short - and the '
              'distance returned is the distance to the point after that many Newton steps along the ray')
@@ -434,8 +493,10 @@ def h7_newton_raphson(ctx, bundle):
     nan = float('nan')
     rays = RealRays(0.0, 0.0, 0.0, 0.0, 0.0, 1.0, 1.0, 0.55)
     two = bundle == 'with_lost_ray'
+    axial = bundle == 'with_axial_ray'          # second ray along the axis through the vertex: its residual is 0 from the first step on
+    second = dict(x=0.0, y=0.0, z=-1.0, L=0.0, M=0.0, N=1.0)
     for nm, v in zip(('x', 'y', 'z', 'L', 'M', 'N'), tuple(P0) + tuple(d)):
-        setattr(rays, nm, ctx.arr(v, nan) if two else ctx.arr(v))
+        setattr(rays, nm, ctx.arr(v, nan) if two else (ctx.arr(v, second[nm]) if axial else ctx.arr(v)))
     xs, ys_, zs = g._intersection_sphere(rays)
     if not ctx.finite(ctx.vals(zs)[0]):
         return
@@ -463,4 +524,6 @@ def h7_newton_raphson(ctx, bundle):
     ctx.oblige('distance_to_the_iterated_point', ctx.And(tA >= 0, ctx.eq(tA * tA, dist2)))
     if two:
         ctx.oblige('lost_ray_stays_lost', not ctx.finite(t[1]))
+    if axial:
+        ctx.oblige('axial_ray_reaches_the_vertex', ctx.eq(t[1], 1.0))
     ctx.observe('tA', tA)
